@@ -1642,9 +1642,10 @@ void SoPlexBase<R>::getRowVectorReal(int i, DSVectorBase<R>& row) const
 
    if(_realLP->isScaled())
    {
-      assert(_scaler);
+      // unscale with the scaler that scaled the stored LP; the currently selected scaler (_scaler) may be a different
+      // one or none at all if the SCALER parameter was changed after the LP had been scaled
       row.setMax(_realLP->rowVector(i).size());
-      _scaler->getRowUnscaled(*_realLP, i, row);
+      _realLP->getRowVectorUnscaled(i, row);
    }
    else
       row = _realLP->rowVector(i);
